@@ -284,6 +284,9 @@ def run_case(ctx, case, rng=None):
     same("obs-as-column", decomp(crps(yin[:, None], x))[0], tolrel=1e-15)
     same("list-and-frame-inputs", decomp(crps(_pd.Series(yin), _pd.DataFrame(x)))[0],
          tolrel=1e-15)
+    # the same numbers in another memory layout / container / exact dtype
+    ctx.presentations("crps", lambda o, e: decomp(crps(o, e))[0], [yin, x], d, case, rng,
+                      rtol=1e-12, n=2)
     # member permutation, independently per forecast
     xp = np.array([rng.permutation(r) for r in x])
     same("member-permutation", decomp(crps(yin, xp))[0], tolrel=1e-13)
